@@ -105,6 +105,20 @@ func Families(tier string, seed int64) []*spec.Program {
 		out = append(out, v)
 	}
 	{
+		// two selected types that each hold a message without fields (the placeholder attribute is built once
+		// per occurrence): alone and together
+		for i, sel := range [][]string{{"MarkA"}, {"MarkB"}, {"MarkA", "MarkB"}, {"MarkB", "MarkA", "Marker"}} {
+			v := variant(base, fmt.Sprintf("f_multi_mark%d", i), "selection", "C01", "C12")
+			v.Spec.Messages = append(v.Spec.Messages, M("Marker", nil),
+				M("MarkA", nil, F("Name", "string"), F("Marker", "msg:Marker")),
+				M("MarkB", nil, F("Count", "int64"), F("Flag", "msg:Marker", nn()), F("Flags", "msg:Marker", rep())))
+			v.Config.Types = sel
+			v.Config.RequiredFields, v.Config.ComputedFields = nil, nil
+			v.NoRun = true
+			out = append(out, v)
+		}
+	}
+	{
 		v := variant(base, "f_multi_extra", "extension", "C01", "C12")
 		v.Spec.Messages = append([]spec.Msg{M("Unrelated1", nil, F("X", "string"), F("Y", "map:int64"))}, v.Spec.Messages...)
 		v.Spec.Messages = append(v.Spec.Messages, M("Unrelated2", []string{"Z"}, F("A", "bool", oneof(0)), F("B", "msg:Unrelated1", oneof(0))))
@@ -348,6 +362,14 @@ func Families(tier string, seed int64) []*spec.Program {
 		f4.Delivery = spec.Delivery{YAMLFault: "malformed"}
 		f4.ExpectFail, f4.NoRun = true, true
 		out = append(out, f4)
+		// a file that exists but cannot be parsed / decoded / read, with everything the generator needs on the
+		// command line: the run must still fail
+		for _, fault := range []string{"malformed", "mistyped", "directory"} {
+			fx := variant(nb, "f_fail_"+fault+"_cli", "must-fail", "C16")
+			fx.Delivery = spec.Delivery{YAMLFault: fault, CLI: []string{"types", "required_fields", "sort"}}
+			fx.ExpectFail, fx.NoRun = true, true
+			out = append(out, fx)
+		}
 		f5 := variant(nb, "f_fail_missing_cli", "must-fail", "C16")
 		f5.Delivery = spec.Delivery{YAMLFault: "missing", CLI: []string{"types", "required_fields", "sort"}}
 		f5.ExpectFail, f5.NoRun = true, true
@@ -367,6 +389,8 @@ func Families(tier string, seed int64) []*spec.Program {
 			{"Mid", F("BadDur", "duration", stddur()), false, true, []string{"Alpha", "Beta"}},
 			{"Beta", F("BadMap", "map:int32,string"), false, false, []string{"Beta"}},
 			{"Gamma", F("BadTop", "timestamp", stdtime(), nn()), true, false, []string{"Gamma"}},
+			// an int64 cast to the configured custom duration type is a duration too: unmappable without duration_type
+			{"Leaf", F("BadCastDur", "int64", cast("Duration")), false, true, []string{"Alpha", "Beta"}},
 		}
 		if thorough {
 			injs = append(injs, inj{"Leaf", F("BadKey", "map:bool,msg:Leaf"), false, false, []string{"Alpha", "Beta"}},
@@ -521,6 +545,39 @@ func Families(tier string, seed int64) []*spec.Program {
 					w.Note = o.key
 					w.NoRun = true
 					out = append(out, w)
+				}
+			}
+		}
+		// the same options when the nested message types are selected types themselves (types=Alpha+Beta+Mid+Leaf):
+		// a path-form key through Alpha or Beta still addresses that occurrence only, and a path-form key
+		// rooted at the nested type addresses the nested type's own schema only
+		{
+			sb := variant(base, "f_optsel_base", "option-base", "C11")
+			sb.Family = "f_optsel_base"
+			sb.Config.Types = []string{"Alpha", "Beta", "Mid", "Leaf"}
+			sb.Config.RequiredFields, sb.Config.ComputedFields = nil, nil
+			out = append(out, sb)
+			selKeys := []string{"Alpha.M1.Leaf.Str", "Beta.Mids.Name", "Mid.Leaf.Num", "Beta.L.Num", "Mid.Leaves.Tags"}
+			for ki, k := range selKeys {
+				k := k
+				for _, o := range []ov{
+					{fmt.Sprintf("excl%d", ki), func(c *spec.Config) { c.ExcludeFields = append(c.ExcludeFields, k) }, k},
+					{fmt.Sprintf("sens%d", ki), func(c *spec.Config) { c.SensitiveFields = append(c.SensitiveFields, k) }, k},
+					{fmt.Sprintf("name%d", ki), func(c *spec.Config) {
+						if c.NameOverrides == nil {
+							c.NameOverrides = map[string]string{}
+						}
+						c.NameOverrides[k] = "renamed_c11"
+					}, k},
+				} {
+					if !thorough && ki >= 3 && !strings.HasPrefix(o.id, "excl") {
+						continue
+					}
+					v := variant(sb, "f_optsel_"+o.id, "option:"+o.key, "C11")
+					v.Family = "f_optsel_base"
+					o.set(&v.Config)
+					v.Note = o.key
+					out = append(out, v)
 				}
 			}
 		}
